@@ -8,7 +8,11 @@ PATCH=$(realpath "$1"); shift
 VERIF=$(cd "$(dirname "$0")/.." && pwd)
 SCR=$(mktemp -d /tmp/frigg-benign.XXXXXX)
 trap 'git -C /repo worktree remove --force "$SCR/wt" >/dev/null 2>&1; rm -rf "$SCR"' EXIT
-git -C /repo worktree add -q --detach "$SCR/wt" HEAD || exit 2
+# a patch that was made against an earlier commit of /repo says so in the meta.json next to it ("applies_to")
+BASE=HEAD
+META="$(dirname "$PATCH")/meta.json"
+if [ -f "$META" ]; then B=$(python3 -c "import json,sys; print(json.load(open(sys.argv[1])).get('applies_to',''))" "$META" 2>/dev/null); [ -n "$B" ] && BASE=$B; fi
+git -C /repo worktree add -q --detach "$SCR/wt" $BASE || exit 2
 if ! git -C "$SCR/wt" apply "$PATCH"; then echo "BENIGN $PATCH: patch does not apply"; exit 2; fi
 echo "BENIGN $PATCH: $(git -C "$SCR/wt" diff --stat | tail -1)"
 if meson setup "$SCR/wt/_build" "$SCR/wt" >/dev/null 2>&1 && meson test -C "$SCR/wt/_build" >"$SCR/test.log" 2>&1; then echo "  existing tests: pass"; else echo "  existing tests: FAIL (patch rejected)"; tail -5 "$SCR/test.log"; fi
